@@ -78,6 +78,7 @@ def programs(tier: str) -> tuple[list[dict], list[dict]]:
 
 def expected_of(skeletons: list[dict]) -> dict[str, dict]:
     """WellFormedInput evaluated by TLC on skeletons of the real DAGs."""
+    dc.ensure_scratch()
     val = tlc.validate_records("DistWF", "DistWF.cfg", skeletons, timeout=1500, heap="3g",
                                env=dc.JVM)
     out = {}
